@@ -432,6 +432,7 @@ class Result:
         self.samples = []
         self.violations = []      # (signature, description, replay dict)
         self.known_hits = {}      # signature -> description
+        self.violation_counts = {}
         self.extra = {}
         self.rule = ""
         self.assumptions = []
@@ -453,7 +454,8 @@ class Result:
             if k["property"] == self.pid and re.fullmatch(k["signature"], signature):
                 self.known_hits.setdefault(k["signature"], k["what"])
                 return False
-        if len(self.violations) < 50:
+        self.violation_counts[signature] = self.violation_counts.get(signature, 0) + 1
+        if self.violation_counts[signature] == 1 and len(self.violations) < 200:
             self.violations.append((signature, what, replay))
         return True
 
@@ -490,6 +492,7 @@ class Result:
             "wall_s": round(wall, 2),
             "violations": len(self.violations),
             "known_findings_hit": sorted(self.known_hits),
+            "violation_signatures": self.violation_counts,
         }
         with open(os.path.join(VERIF, "evidence", self.pid + ".json"), "w") as f:
             json.dump(ev, f, indent=1)
